@@ -4,13 +4,51 @@
   Imports ShelxModel only (no Mathlib), so it links as a `lean_exe`.
 -/
 import ShelxModel.JsonUtil
+import ShelxModel.Drv.C01
+import ShelxModel.Drv.C02
+import ShelxModel.Drv.C03
+import ShelxModel.Drv.C04
+import ShelxModel.Drv.C05
+import ShelxModel.Drv.C06
+import ShelxModel.Drv.C07
+import ShelxModel.Drv.C08
 import ShelxModel.Drv.C09
+import ShelxModel.Drv.C10
+import ShelxModel.Drv.C11
+import ShelxModel.Drv.C12
+import ShelxModel.Drv.C13
+import ShelxModel.Drv.C14
+import ShelxModel.Drv.C15
+import ShelxModel.Drv.C16
+import ShelxModel.Drv.C17
+import ShelxModel.Drv.C18
+import ShelxModel.Drv.C19
+import ShelxModel.Drv.C20
 open Lean
 
 def dispatch (j : Json) : Except String Json := do
   let p ← Shelx.J.strField j "p"
   match p with
+  | "C01" => Shelx.Drv.C01.handle j
+  | "C02" => Shelx.Drv.C02.handle j
+  | "C03" => Shelx.Drv.C03.handle j
+  | "C04" => Shelx.Drv.C04.handle j
+  | "C05" => Shelx.Drv.C05.handle j
+  | "C06" => Shelx.Drv.C06.handle j
+  | "C07" => Shelx.Drv.C07.handle j
+  | "C08" => Shelx.Drv.C08.handle j
   | "C09" => Shelx.Drv.C09.handle j
+  | "C10" => Shelx.Drv.C10.handle j
+  | "C11" => Shelx.Drv.C11.handle j
+  | "C12" => Shelx.Drv.C12.handle j
+  | "C13" => Shelx.Drv.C13.handle j
+  | "C14" => Shelx.Drv.C14.handle j
+  | "C15" => Shelx.Drv.C15.handle j
+  | "C16" => Shelx.Drv.C16.handle j
+  | "C17" => Shelx.Drv.C17.handle j
+  | "C18" => Shelx.Drv.C18.handle j
+  | "C19" => Shelx.Drv.C19.handle j
+  | "C20" => Shelx.Drv.C20.handle j
   | _ => .error s!"unknown property {p}"
 
 partial def loop (hin : IO.FS.Stream) (hout : IO.FS.Stream) : IO Unit := do
